@@ -47,34 +47,52 @@ type c12Ack struct {
 	Term  uint64 `json:"term"`
 	Body  string `json:"body"`
 	Node  uint64 `json:"proposed_on"`
+	// Before is the proposing node's cached raft status just before Propose.
+	Before  string `json:"proposer_status_before_propose,omitempty"`
+	flagged bool
 }
 
 // c12Monitor is the per-case oracle state.
 type c12Monitor struct {
 	r *verifkit.Run
 
-	mu        sync.Mutex
-	canon     map[uint64]map[uint64]c12Rec // slot -> index -> first applied record
-	proposed  map[string]uint64            // body -> slot (registered before Propose)
-	bodyIndex map[string]uint64            // body -> first canon index (duplicates counted)
-	acks      []c12Ack
-	applied   int // distinct (slot,index) applied
-	applies   int // apply events over all replicas
-	snapSaves int
-	restoresInflight int
-	restoresOpen     int
+	mu                sync.Mutex
+	canon             map[uint64]map[uint64]c12Rec // slot -> index -> first applied record
+	proposed          map[string]uint64            // body -> slot (registered before Propose)
+	bodyIndex         map[string]uint64            // body -> first canon index (duplicates counted)
+	acks              []c12Ack
+	applied           int // distinct (slot,index) applied
+	applies           int // apply events over all replicas
+	snapSaves         int
+	restoresInflight  int
+	restoresOpen      int
 	reapplyNonDurable int
-	gapUnknown       int
-	violated  bool
+	gapUnknown        int
+	saveErrs          []map[string]any
+	leaderOf          map[uint64]map[uint64]uint64 // slot -> term -> node seen sending leader messages
 }
 
 func c12NewMonitor(r *verifkit.Run) *c12Monitor {
-	return &c12Monitor{r: r, canon: map[uint64]map[uint64]c12Rec{}, proposed: map[string]uint64{}, bodyIndex: map[string]uint64{}}
+	return &c12Monitor{r: r, canon: map[uint64]map[uint64]c12Rec{}, proposed: map[string]uint64{}, bodyIndex: map[string]uint64{}, leaderOf: map[uint64]map[uint64]uint64{}}
 }
 
+// c12SigSeen bounds reports per signature over the whole run: the kit keeps the
+// first 10 violations only, and one frequent signature must not crowd out a
+// different one.
+var (
+	c12SigMu   sync.Mutex
+	c12SigSeen = map[string]int{}
+)
+
 func (m *c12Monitor) violation(sig string, w map[string]any) {
-	m.violated = true
-	m.r.Violation(sig, w)
+	c12SigMu.Lock()
+	c12SigSeen[sig]++
+	n := c12SigSeen[sig]
+	c12SigMu.Unlock()
+	m.r.Count("violation_events:"+sig, 1)
+	if n <= 2 {
+		m.r.Violation(sig, w)
+	}
 }
 
 func c12HashSlot(body string) uint16 {
@@ -101,30 +119,66 @@ func (m *c12Monitor) registerProposal(slot uint64, body string) {
 }
 
 // ack checks one successful future result.
-func (m *c12Monitor) ack(slot uint64, node uint64, body string, res multiraft.Result) {
+func (m *c12Monitor) ack(slot uint64, node uint64, body, before string, res multiraft.Result, log *c12Log) {
 	m.mu.Lock()
 	defer m.mu.Unlock()
 	m.r.Eval(1)
-	a := c12Ack{Slot: slot, Index: res.Index, Term: res.Term, Body: body, Node: node}
-	m.acks = append(m.acks, a)
+	a := c12Ack{Slot: slot, Index: res.Index, Term: res.Term, Body: body, Node: node, Before: before}
+	defer func() { m.acks = append(m.acks, a) }()
 	rec, ok := m.canon[slot][res.Index]
 	if !ok {
 		// The future is resolved after the proposing replica applied the entry,
 		// and the recording state machine logs under this mutex inside Apply.
+		a.flagged = true
 		m.violation("ack-index-not-applied", map[string]any{"ack": a})
 		return
 	}
 	if rec.Body != body {
-		m.violation("ack-index-holds-other-command", map[string]any{"ack": a, "applied_at_index": rec,
-			"own_command_applied_at": m.bodyIndex[body]})
+		a.flagged = true
+		// Classify by what the acknowledging node itself persisted for this
+		// proposal (observed at Storage.Save), to keep the signature specific.
+		own, had := log.bodyAt(body)
+		// "not-appended-at-acked-index": the acknowledging node never stored this
+		// proposal at the acknowledged index (it did not create that entry);
+		// "own-entry-superseded": it did store it there under an older term and
+		// the entry was later overwritten by another leader's entry.
+		kind := "proposal-not-appended-at-acked-index-by-acking-node"
+		detail := "never persisted by the acking node before the ack"
+		switch {
+		case had && own[0] == res.Index && own[1] != res.Term:
+			kind = "own-entry-superseded-at-same-index"
+			detail = "persisted at the acked index under an older term"
+		case had:
+			detail = "persisted by the acking node at a different index (forwarded and replicated back)"
+		}
+		w := map[string]any{"ack": a, "applied_at_index": rec, "own_command_first_applied_at_index": m.bodyIndex[body],
+			"leader_of_acked_term": m.leaderOf[slot][res.Term], "acking_node_persisted_proposal_at(index,term)": own, "detail": detail}
+		m.violation("ack-index-holds-other-command:"+kind, w)
 		return
 	}
 	if rec.Term != res.Term {
+		a.flagged = true
 		m.violation("ack-term-mismatch", map[string]any{"ack": a, "applied_at_index": rec})
 	}
 	if string(res.Data) != c12Result(body) {
+		a.flagged = true
 		m.violation("ack-result-of-other-command", map[string]any{"ack": a, "result": string(res.Data)})
 	}
+}
+
+// noteLeader records which node acted as leader of (slot, term): only a leader
+// sends MsgApp/MsgHeartbeat/MsgSnap. Witness material only.
+func (m *c12Monitor) noteLeader(slot, term, node uint64) {
+	m.mu.Lock()
+	lt := m.leaderOf[slot]
+	if lt == nil {
+		lt = map[uint64]uint64{}
+		m.leaderOf[slot] = lt
+	}
+	if _, ok := lt[term]; !ok {
+		lt[term] = node
+	}
+	m.mu.Unlock()
 }
 
 // ---------------------------------------------------------------------------
@@ -138,6 +192,7 @@ type c12LogEnt struct {
 type c12Log struct {
 	mu          sync.Mutex
 	ents        map[uint64]c12LogEnt
+	bodies      map[string][2]uint64 // command body -> last (index, term) this node persisted it at
 	snapIndex   uint64
 	markApplied uint64
 }
@@ -165,8 +220,18 @@ func (l *c12Log) saved(st multiraft.PersistentState) {
 		}
 		for _, e := range st.Entries {
 			l.ents[e.Index] = c12LogEnt{term: e.Term, deliverable: e.Type == raftpb.EntryNormal && len(e.Data) > 0}
+			if e.Type == raftpb.EntryNormal && len(e.Data) > 10 {
+				l.bodies[string(e.Data[10:])] = [2]uint64{e.Index, e.Term}
+			}
 		}
 	}
+}
+
+func (l *c12Log) bodyAt(body string) ([2]uint64, bool) {
+	l.mu.Lock()
+	defer l.mu.Unlock()
+	v, ok := l.bodies[body]
+	return v, ok
 }
 
 // gap classifies the open interval (lo, hi): number of indices known to hold a
@@ -289,6 +354,7 @@ func (s *c12SM) ApplyBatch(_ context.Context, cmds []multiraft.Command) ([][]byt
 				sig = "restart-reapplied-command"
 			}
 			m.violation(sig, map[string]any{"at": s.where(), "index": cmd.Index, "term": cmd.Term, "body": body})
+			s.cur = cmd.Index // resynchronise: report the rewind once, not every command after it
 		default:
 			s.checkGap(s.cur, cmd.Index)
 			s.cur = cmd.Index
@@ -423,8 +489,9 @@ func c12EncodeSnap(d *c12Disk) []byte {
 	sort.Slice(idx, func(a, b int) bool { return idx[a] < idx[b] })
 	buf := make([]byte, 0, 32+len(idx)*32)
 	buf = append(buf, c12SnapMagic...)
+	// Canonical bytes: a function of the applied commands only, so that two
+	// replicas snapshotting at the same raft index produce identical payloads.
 	buf = binary.AppendUvarint(buf, uint64(len(idx)))
-	buf = binary.AppendUvarint(buf, d.p)
 	for _, i := range idx {
 		e := d.list[i]
 		buf = binary.AppendUvarint(buf, i)
@@ -455,11 +522,7 @@ func c12DecodeSnap(data []byte) (*c12Disk, bool) {
 	if !ok {
 		return nil, false
 	}
-	p, ok := rd()
-	if !ok {
-		return nil, false
-	}
-	d := &c12Disk{list: make(map[uint64]c12Rec, n), p: p}
+	d := &c12Disk{list: make(map[uint64]c12Rec, n)}
 	for k := uint64(0); k < n; k++ {
 		i, ok1 := rd()
 		t, ok2 := rd()
@@ -532,9 +595,27 @@ func (s *c12Store) Snapshot(ctx context.Context) (raftpb.Snapshot, error) {
 	return s.inner.Snapshot(ctx)
 }
 
+// c12Gate lets a directed scenario hold one node's worker inside Storage.Save
+// (a slow disk) when the batch contains a given command.
+type c12Gate struct {
+	body    string
+	entered chan struct{}
+	release chan struct{}
+	once    sync.Once
+}
+
 func (s *c12Store) Save(ctx context.Context, st multiraft.PersistentState) error {
 	if d := s.delay(); d > 0 {
 		time.Sleep(d)
+	}
+	if g := s.node.gate.Load(); g != nil {
+		for _, e := range st.Entries {
+			if e.Type == raftpb.EntryNormal && len(e.Data) > 10 && string(e.Data[10:]) == g.body {
+				g.once.Do(func() { close(g.entered) })
+				<-g.release
+				break
+			}
+		}
 	}
 	s.node.cut.RLock()
 	defer s.node.cut.RUnlock()
@@ -547,6 +628,8 @@ func (s *c12Store) Save(ctx context.Context, st multiraft.PersistentState) error
 	err := s.inner.Save(ctx, st)
 	if err != nil {
 		s.mon.r.Count("storage.save_error", 1)
+		s.mon.r.Count("storage.save_error:"+c12Scrub(err.Error()), 1)
+		s.mon.noteSaveError(s, st, err)
 		return err
 	}
 	s.log.saved(st)
@@ -606,4 +689,37 @@ func (s *c12Store) LogRangeBytes(ctx context.Context, lo, hi uint64) (uint64, er
 		return st.LogRangeBytes(ctx, lo, hi)
 	}
 	return 0, nil
+}
+
+// c12Scrub removes digits so that error texts can be used as counter keys.
+func c12Scrub(s string) string {
+	b := []byte(s)
+	for i, c := range b {
+		if c >= '0' && c <= '9' {
+			b[i] = '#'
+		}
+	}
+	if len(b) > 120 {
+		b = b[:120]
+	}
+	return string(b)
+}
+
+func (m *c12Monitor) noteSaveError(s *c12Store, st multiraft.PersistentState, err error) {
+	d := map[string]any{"node": uint64(s.node.id), "slot": s.slot, "incarnation": s.inc.no, "err": err.Error(), "entries": len(st.Entries)}
+	if len(st.Entries) > 0 {
+		d["first"], d["last"] = st.Entries[0].Index, st.Entries[len(st.Entries)-1].Index
+	}
+	if st.Snapshot != nil {
+		d["snapshot_index"], d["snapshot_term"], d["snapshot_len"] = st.Snapshot.Metadata.Index, st.Snapshot.Metadata.Term, len(st.Snapshot.Data)
+		d["snapshot_conf"] = st.Snapshot.Metadata.ConfState.String()
+	}
+	if st.HardState != nil {
+		d["hs"] = st.HardState.String()
+	}
+	m.mu.Lock()
+	if len(m.saveErrs) < 6 {
+		m.saveErrs = append(m.saveErrs, d)
+	}
+	m.mu.Unlock()
 }
